@@ -184,6 +184,8 @@ def build(chk):
     chk.lemmas += ['L4 (cited)']
     chk.assumptions += [
         'reals, not floats (the midpoint is exact; IEEE rounding of (xmin+xmax)/2 is not modelled)',
+        'the dtype of the bracket arrays is not modelled (every array of the executor is real-valued): brackets given as '
+        'integer-typed ndarrays are covered by the BOUNDED stand-in C18.integer_brackets.bounded only',
         'f is an arbitrary lane-specific non-decreasing function F(i, x) (uninterpreted; monotonicity instantiated on '
         'the occurring applications); continuity enters only through the cited L4',
         'whole-batch reductions (.all(), .max()) are adversarial: each lane is verified for every behaviour of the others',
@@ -194,6 +196,8 @@ def build(chk):
         {'clause': 'chandrupatla: within 1e-9 of the bracket width (or an exact zero) in <= 50 iterations',
          'reason': '(T) convergence rate of the IQI/bisection switch: BOUNDED native stand-in on the generated family'},
         {'clause': 'KDE call site satisfies the bracket precondition', 'reason': 'belongs to C03 (GaussianKDE.percent_point)'},
+        {'clause': 'integer-typed bracket arrays', 'reason': 'dtype is outside the real-valued encoding: BOUNDED native stand-in '
+         '(both solvers, int64 / int32); it found the truncating in-place narrowing of bisect, repaired in /repo (42bf326)'},
     ]
 
 
